@@ -7,6 +7,10 @@ fn usage() -> ! {
 
 fn main() {
     vh::panics::install();
+    if let Ok(filter) = std::env::var("VERIF_TRACE") {
+        // debugging aid: VERIF_TRACE=anemo=trace,quinn=debug ./vcheck replay <file>
+        let _ = tracing_subscriber::fmt().with_env_filter(tracing_subscriber::EnvFilter::new(filter)).with_writer(std::io::stderr).without_time().try_init();
+    }
     let args: Vec<String> = std::env::args().skip(1).collect();
     if args.is_empty() {
         usage();
